@@ -260,6 +260,9 @@ enum Op {
     Up(&'static str),
     Stall,
     Resume,
+    /// SOCKS5 upstream only: the server refuses / accepts UDP ASSOCIATE
+    Refuse,
+    Accept,
 }
 
 fn op_json(o: &Op) -> Value {
@@ -272,6 +275,8 @@ fn op_json(o: &Op) -> Value {
         Op::Up(a) => json!({"e": "Up", "a": a}),
         Op::Stall => json!({"e": "Stall"}),
         Op::Resume => json!({"e": "Resume"}),
+        Op::Refuse => json!({"e": "Refuse"}),
+        Op::Accept => json!({"e": "Accept"}),
     }
 }
 
@@ -280,6 +285,7 @@ fn static_name(a: &str) -> &'static str {
         "X" => "X",
         "Y" => "Y",
         "D" => "D",
+        "relay" => "relay",
         _ => panic!("server name {}", a),
     }
 }
@@ -523,11 +529,42 @@ impl<'a> Run<'a> {
                 ev(if want { "Stall" } else { "Resume" }, String::new());
                 self.settle(None).await;
             }
+            Op::Refuse | Op::Accept => {
+                self.skipped += 1;
+                return;
+            }
         }
         if self.fut.is_some() {
             self.obs();
         }
     }
+}
+
+#[path = "../c07_socks.rs"]
+mod s5;
+
+/// SOCKS5 upstream: replies that were left waiting in an association socket by the reader
+static DELAYED: AtomicU64 = AtomicU64::new(0);
+
+/// merge consecutive one-millisecond advances into one line
+fn merge_adv(mut lines: Vec<String>) -> Vec<String> {
+    let mut merged: Vec<String> = Vec::with_capacity(lines.len());
+    let mut adv = 0u64;
+    for l in lines.drain(..) {
+        if l.contains("\"ev\":\"Adv\"") {
+            adv += 1;
+            continue;
+        }
+        if adv > 0 {
+            merged.push(format!("{{\"ev\":\"Adv\",\"d\":{}}}", adv));
+            adv = 0;
+        }
+        merged.push(l);
+    }
+    if adv > 0 {
+        merged.push(format!("{{\"ev\":\"Adv\",\"d\":{}}}", adv));
+    }
+    merged
 }
 
 struct Outcome {
@@ -739,8 +776,10 @@ fn parse_ops(s: &Value) -> Vec<Op> {
                 "B" => Op::B(f, g),
                 "R" => Op::R(f),
                 "Tick" => Op::Tick,
-                "Down" => Op::Down(static_name(o["a"].as_str().unwrap())),
-                "Up" => Op::Up(static_name(o["a"].as_str().unwrap())),
+                "Down" => Op::Down(o["a"].as_str().map(static_name).unwrap_or("relay")),
+                "Up" => Op::Up(o["a"].as_str().map(static_name).unwrap_or("relay")),
+                "Refuse" => Op::Refuse,
+                "Accept" => Op::Accept,
                 "Stall" => Op::Stall,
                 "Resume" => Op::Resume,
                 x => panic!("unknown op {}", x),
@@ -762,7 +801,9 @@ fn main() {
     }
     let trace_path = arg("--trace").expect("--trace");
     let mut tf = std::io::BufWriter::new(std::fs::File::create(&trace_path).unwrap());
-    let mut net = Net::new();
+    let socks = arg("--upstream").as_deref() == Some("socks5");
+    let mut net = if socks { None } else { Some(Net::new()) };
+    let mut snet = if socks { Some(s5::SNet::new()) } else { None };
     let verbose = std::env::args().any(|a| a == "--verbose");
     let mut runs = 0u64;
     let mut events = 0u64;
@@ -781,7 +822,7 @@ fn main() {
         let n: u64 = n.parse().unwrap();
         let mut rng = StdRng::seed_from_u64(seed().wrapping_mul(7919).wrapping_add(7));
         for i in 0..n {
-            let ops = random_ops(&mut rng);
+            let ops = if socks { s5::random_ops(&mut rng) } else { random_ops(&mut rng) };
             plans.push((json!({"from": "random", "run": i, "ops": ops.iter().map(op_json).collect::<Vec<_>>()}), ops));
         }
     }
@@ -796,7 +837,13 @@ fn main() {
         let d2 = desc.clone();
         watchdog::enter(move || ("c07:hang".into(), "the UDP multiplexer did not return from poll".into(), d2));
         let t_run = Instant::now();
-        let r = catch(|| rt.block_on(run_one(&mut net, &ops)));
+        let r = catch(|| {
+            if socks {
+                rt.block_on(s5::run_one(snet.as_mut().unwrap(), &ops))
+            } else {
+                rt.block_on(run_one(net.as_mut().unwrap(), &ops))
+            }
+        });
         watchdog::leave();
         if verbose || t_run.elapsed() > Duration::from_millis(500) {
             eprintln!("run {} took {:?}: {}", runs, t_run.elapsed(), desc);
@@ -837,9 +884,16 @@ fn main() {
             ("metric_out", "\"ev\":\"Metric\",\"dir\":\"out\""),
             ("metric_in", "\"ev\":\"Metric\",\"dir\":\"in\""),
             ("peer_got", "\"ev\":\"PeerGot\""),
+            ("assoc_open", "\"ev\":\"AssocOpen\""),
+            ("assoc_refused", "\"ev\":\"AssocOpen\",\"s\":\"a\",\"d\":\"P1\",\"ok\":false"),
+            ("assoc_add_peer", "\"ev\":\"AssocAddPeer\""),
+            ("assoc_release", "\"ev\":\"AssocRelease\""),
+            ("assoc_error", "\"ev\":\"AssocError\""),
+            ("s5_send_err", "\"ev\":\"S5Send\""),
         ] {
             rep.count(k, o.lines.iter().filter(|l| l.contains(pat)).count() as u64);
         }
+        rep.count("peer_closed_sibling_left", o.lines.iter().filter(|l| l.contains("\"ev\":\"PeerClosed\"") && l.contains("\"found\":true") && !l.contains("\"left\":0")).count() as u64);
         rep.count("send_errors_any", o.lines.iter().filter(|l| l.contains("\"ev\":\"SinkWrite\"") && l.contains("\"ok\":false")).count() as u64);
         if runs <= 2 || (runs % 700 == 0) {
             rep.sample(json!({"plan": desc, "events": o.lines.iter().take(40).collect::<Vec<_>>()}));
@@ -861,6 +915,7 @@ fn main() {
     rep.count("events", events);
     rep.count("ops_skipped_not_enabled", skipped);
     rep.count("runs_where_exchange_returned_early", early);
+    rep.count("socks5_replies_read_late", DELAYED.load(Ordering::SeqCst));
     rep.finish(&out_path);
 }
 
